@@ -143,6 +143,7 @@ func (s *scanner) stateMinusFound(c byte) bool {
 
 func (s *scanner) stateFirstZeroFound(c byte) bool {
 	if c == '.' {
+		s.finished = false
 		s.stateFn = s.statePointFound
 		return true
 	}
@@ -155,9 +156,11 @@ func (s *scanner) stateIntegerNumberFound(c byte) bool {
 		s.intLen++
 
 	case '.':
+		s.finished = false
 		s.stateFn = s.statePointFound
 
 	case 'e', 'E':
+		s.finished = false
 		s.stateFn = s.stateExpFound
 	default:
 		return false
@@ -179,6 +182,7 @@ func (s *scanner) stateFractionalNumberFound(c byte) bool {
 	case '0', '1', '2', '3', '4', '5', '6', '7', '8', '9':
 		s.fraLen++
 	case 'e', 'E':
+		s.finished = false
 		s.stateFn = s.stateExpFound
 	default:
 		return false
@@ -189,18 +193,21 @@ func (s *scanner) stateFractionalNumberFound(c byte) bool {
 func (s *scanner) stateExpFound(c byte) bool {
 	switch c {
 	case '+':
+		s.finished = false
 		s.stateFn = s.stateExpSignFound
 
 	case '-':
 		if s.expBegin == 0 {
 			s.expBegin = s.index
 		}
+		s.finished = false
 		s.stateFn = s.stateExpSignFound
 
 	case '0', '1', '2', '3', '4', '5', '6', '7', '8', '9':
 		if s.expBegin == 0 {
 			s.expBegin = s.index
 		}
+		s.stateFn = s.stateExpNumberFound
 	default:
 		return false
 	}
